@@ -343,7 +343,7 @@ def run_cases(harness, model, cases):
     hl = [case_line(c) for c in cases]
     hout, crashes = run_harness(harness, hl)
     ml = ["%s @@ %s" % (l, h) for l, h in zip(hl, hout) if h and not h.startswith("CRASH") and h != "SKIPPED"]
-    rc, mo, merr = vv.run_lines(model, "\n".join(ml) + "\n")
+    rc, mo, merr = vv.run_lines_parallel(model, ml)
     if rc != 0:
         raise vv.BuildError("model driver failed: rc=%s %s" % (rc, merr[:500]))
     mout, j = [], 0
